@@ -37,11 +37,13 @@ type (
 	SIndex struct{ X, I SExpr }
 	SSlice struct{ X, Lo, Hi SExpr }
 	SQuant struct {
-		Forall bool
-		Vars   []SVar
-		Body   SExpr
+		Forall   bool
+		Vars     []SVar
+		Body     SExpr
+		Triggers [][]SExpr
 	}
 	SOld struct{ X SExpr }
+	SPre struct{ X SExpr } // value at the head of the enclosing loop iteration
 	SIte struct{ C, A, B SExpr }
 	SDeref struct{ X SExpr }
 )
@@ -317,6 +319,8 @@ func (ps *sparser) postfix() SExpr {
 			ps.expectOp(")")
 			if name == "old" && len(args) == 1 {
 				x = SOld{args[0]}
+			} else if name == "pre" && len(args) == 1 {
+				x = SPre{args[0]}
 			} else {
 				x = SCall{name, args}
 			}
@@ -371,8 +375,21 @@ func (ps *sparser) primary() SExpr {
 				break
 			}
 			ps.expectOp("::")
+			var trigs [][]SExpr
+			for ps.isOp("{") {
+				ps.p++
+				var grp []SExpr
+				for !ps.isOp("}") {
+					grp = append(grp, ps.expr())
+					if ps.isOp(",") {
+						ps.p++
+					}
+				}
+				ps.expectOp("}")
+				trigs = append(trigs, grp)
+			}
 			body := ps.expr()
-			return SQuant{t.s == "forall", vars, body}
+			return SQuant{t.s == "forall", vars, body, trigs}
 		}
 		return SIdent{t.s}
 	case "op":
@@ -430,6 +447,7 @@ type Contract struct {
 	Ensures  []*Clause
 	Modifies []*Clause
 	Invs     []*Clause
+	Hints    []*Clause // proved (and then assumed) at the back edges of a loop, before the invariants
 	PanicsIf []*Clause
 	Opts     map[string]string
 	Trusted  bool // prelude / assumed contract
@@ -539,7 +557,7 @@ func parseSpecFile(path, text, pkg string, trusted bool) (*SpecFile, error) {
 		lines = append(lines, ln{i + 1, s})
 	}
 	// join continuation lines: a line that doesn't start with a keyword continues the previous.
-	topKw := map[string]bool{"func": true, "iface": true, "spec": true, "ghost": true, "axiom": true, "lemma": true, "chaninv": true, "define": true}
+	topKw := map[string]bool{"func": true, "iface": true, "spec": true, "ghost": true, "axiom": true, "lemma": true, "chaninv": true, "define": true, "zero": true}
 	var joined []ln
 	for _, l := range lines {
 		first := l.s
@@ -677,15 +695,19 @@ func parseSpecFile(path, text, pkg string, trusted bool) (*SpecFile, error) {
 			fmt.Sscanf(f[0], "%d", &n)
 			k2 = f[1]
 			body := strings.TrimSpace(strings.SplitN(rest, k2, 2)[1])
-			if k2 != "invariant" {
-				return nil, fmt.Errorf("%s: expected 'invariant'", loc)
+			if k2 != "invariant" && k2 != "hint" {
+				return nil, fmt.Errorf("%s: expected 'invariant' or 'hint'", loc)
 			}
 			label, body := splitLabel(body)
 			e, err := parseSpecExpr(body)
 			if err != nil {
 				return nil, fmt.Errorf("%s: %v", loc, err)
 			}
-			cur.Invs = append(cur.Invs, &Clause{Kind: "invariant", Label: label, Text: body, Expr: e, Loop: n, Line: loc})
+			if k2 == "hint" {
+				cur.Hints = append(cur.Hints, &Clause{Kind: "hint", Label: label, Text: body, Expr: e, Loop: n, Line: loc})
+			} else {
+				cur.Invs = append(cur.Invs, &Clause{Kind: "invariant", Label: label, Text: body, Expr: e, Loop: n, Line: loc})
+			}
 		case "spec":
 			// spec name(a T, b U) R
 			cur = nil
@@ -760,6 +782,24 @@ func parseSpecFile(path, text, pkg string, trusted bool) (*SpecFile, error) {
 			}
 			m.Expr = e
 			sf.Defs[m.Name] = m
+		case "zero":
+			// zero pkg.Type(v): expr   -- holds for a freshly allocated zero value of the type, v = its address
+			cur = nil
+			i := strings.Index(rest, "(")
+			j := matchParen(rest, i)
+			if i < 0 || j < 0 {
+				return nil, fmt.Errorf("%s: bad zero clause", loc)
+			}
+			body := strings.TrimPrefix(strings.TrimSpace(rest[j+1:]), ":")
+			e, err := parseSpecExpr(body)
+			if err != nil {
+				return nil, fmt.Errorf("%s: %v", loc, err)
+			}
+			key := strings.TrimSpace(rest[:i])
+			if pkg != "" && !strings.Contains(key, "/") {
+				key = pkg + "." + key
+			}
+			sf.ChanInvs = append(sf.ChanInvs, &ChanInv{Key: "zero:" + key, Var: strings.TrimSpace(rest[i+1 : j]), Text: body, Expr: e, Pkg: pkg})
 		case "chaninv":
 			// chaninv Key(v): expr
 			cur = nil
